@@ -168,8 +168,63 @@ def corpus_layer(ctx):
         ctx.count('corpus')
 
 
+def tuple_key_layer(ctx):
+    """grouping keys whose values are themselves tuples (amounts, positions): one such key is still one key (the
+    model has no tuple values: the expected groups are folded here, in first-appearance order); and the order in
+    which a FROM-subquery delivers its rows is the order first() and last() and the groups follow (model)"""
+    import impl
+    from decimal import Decimal as D
+    from beancount.core import amount, position
+    a1, a2 = amount.Amount(D('5.00'), 'USD'), amount.Amount(D('7'), 'EUR')
+    p1, p2 = position.Position(a1, None), position.Position(a2, None)
+    cols = ['w', 'p', 'i', 's']
+    rows = [(a1, p1, 1, 'x'), (a2, p1, 2, 'y'), (a1, None, 3, 'x'), (None, p2, 4, 'y'), (a2, p1, 5, 'x'), (a1, p2, 6, 'y')]
+    table = impl.HTable('v', [('w', amount.Amount), ('p', position.Position), ('i', int), ('s', str)], rows)
+    conn = impl.connection([table])
+    for keys, spell in ((['w'], 'w'), (['p'], 'p'), (['p'], '1'), (['w'], None), (['w', 'p'], 'w, p'), (['s', 'w'], 's, w'),
+                        (['p', 's'], '2, 1')):
+        for hidden in (False, True):
+            if hidden and spell in (None, '1', '2, 1'):
+                continue
+            sel = ([] if hidden else keys) + ['count(*) AS n', 'sum(i) AS x', 'first(i) AS f', 'last(i) AS l']
+            text = 'SELECT %s FROM #v%s' % (', '.join(sel), ' GROUP BY ' + spell if spell else '')
+            groups = {}
+            for r in rows:
+                k = tuple(r[cols.index(c)] for c in keys)
+                groups.setdefault(k, []).append(r[2])
+            want = [(() if hidden else k) + (len(v), sum(v), v[0], v[-1]) for k, v in groups.items()]
+            try:
+                cur = conn.execute(text)
+                got = cur.fetchall()
+                gdesc = [c.datatype for c in cur.description]
+            except Exception as exc:  # noqa: BLE001
+                got, gdesc = 'EXC:%s' % type(exc).__name__, None
+            ctx.evaluations += 1
+            ctx.count('tuple-keys')
+            ctx.nontrivial_hashes.add(hash(('tuple-keys', text)))
+            problem = None
+            if repr(got) != repr(want):
+                problem = 'rows %r, expected %r' % (got, want)
+            elif any(v is not None and not isinstance(v, t) for r in got for v, t in zip(r, gdesc)):
+                problem = 'a cell is not of the announced datatype: %r vs %r' % (got, gdesc)
+            if problem:
+                ctx.record_violation('tuple-valued-key', '%s: %s' % (text, problem[:600]), payload={'statement': text})
+    for text in ('SELECT first(i) AS f, last(i) AS l FROM (SELECT i, s FROM #v ORDER BY i DESC)',
+                 'SELECT s, first(i) AS f, last(i) AS l, count(*) AS n FROM (SELECT i, s FROM #v ORDER BY s DESC, i DESC) GROUP BY s',
+                 'SELECT s, last(i) - first(i) AS span FROM (SELECT i, s FROM #v ORDER BY i DESC) GROUP BY s',
+                 'SELECT s, count(*) AS n FROM (SELECT i, s FROM #v ORDER BY s DESC) GROUP BY s',
+                 'SELECT s, first(i) AS f FROM (SELECT i, s FROM #v ORDER BY i DESC LIMIT 4) GROUP BY s'):
+        table2 = impl.HTable('v', [('i', int), ('s', str)], [r[2:] for r in rows])
+        case = SqlCase([table2], text, name='corpus')
+        case.check(ctx)
+        if not case.run_impl().startswith('OK'):
+            raise RuntimeError('corpus statement is not accepted: %s' % text)
+        ctx.count('corpus')
+
+
 def run(ctx):
     corpus_layer(ctx)
+    tuple_key_layer(ctx)
     small_layer(ctx)
     random_layer(ctx, 60000 if ctx.thorough() else 600)
 
